@@ -22,7 +22,7 @@ Observe at: {json.dumps(p['anchors'].get('observe_at'))}
 
 REQUIREMENTS for each of the two changes (call them A and B; they must have different root causes in different functions or code paths):
 1. It is a plausible slip a developer could make (off-by-one, wrong variable, dropped copy, missing branch, reordered condition, optimisation that is wrong in a corner case, two cooperating sites that each look fine alone ...), NOT an obviously sabotaging change, and it must need something specific to manifest: an unusual input, a particular nesting or combination of constructs, a multi-step sequence, a particular option combination - something ordinary use and the existing tests would not expose at once. Prefer changes where simple documents still work.
-2. The code still imports and the complete existing test suite still passes with the change: `cd {wt} && /venv/bin/python -m pytest -q -p no:cacheprovider -x` (takes about 30 s; 454 tests) must report all passed.
+2. The code still imports and the complete existing test suite still passes with the change: `cd {wt} && /venv/bin/python -m pytest -q -p no:cacheprovider -x` (takes about 30 s; 454 tests) must report all passed. (The shell tests use the fixed TCP port 8081; other people may run the suite concurrently on this machine, which makes tests/test_shell* fail spuriously. Run the suite inside its own network namespace to avoid that: `unshare -n sh -c 'ip link set lo up; cd {wt} && /venv/bin/python -m pytest -q -p no:cacheprovider -x'`.) Demos run as scripts should put the current directory first on sys.path (`sys.path.insert(0, os.getcwd())`) so that the tree's yalafi is imported.
 3. It genuinely violates the property as stated (not merely changes some unspecified behaviour). Re-read the statement; stay inside what it quantifies over (e.g. do not rely on documents the statement excludes).
 4. You provide a demonstration: a small stand-alone Python program that exits with status 1 (printing what went wrong) when run against the changed code and exits 0 against the unchanged code. It is run as `cd <tree> && /venv/bin/python <demo>`; it must import yalafi from the current directory (or start `python -m yalafi...` subprocesses with cwd there) and must not depend on the network.
 
